@@ -111,7 +111,7 @@ class FakeBleClient:
 
 
 class BleRig:
-    def __init__(self, seed=0, mtu=158, gated=False, chars=None, load=True, bkey=None, gsn=None):
+    def __init__(self, seed=0, mtu=158, gated=False, chars=None, load=True, bkey=None, gsn=None, acc_id=None):
         from aiohomekit.characteristic_cache import CharacteristicCacheMemory
         from aiohomekit.controller.ble import pairing as ble_pairing
         from aiohomekit.controller.ble.controller import BleController
@@ -121,7 +121,7 @@ class BleRig:
         self.loop = vloop.VirtualLoop().install()
         self._pin = pairdrv.pinned_keys(f"blerig|{seed}")
         self._pin.__enter__()
-        self.acc = bleacc.BleAccessory(seed, chars=chars)
+        self.acc = bleacc.BleAccessory(seed, chars=chars, **({"acc_id": acc_id} if acc_id else {}))
         if gsn is not None:
             self.acc.gsn = gsn
         self.clients = []
